@@ -1,36 +1,68 @@
+mod analysis;
+mod check;
+mod gen;
+mod oracle;
+mod props;
 mod refcodec;
 mod rng;
 mod scenario;
 mod spec;
 mod world;
 
-use scenario::*;
-use spec::*;
-use world::*;
+use check::{Options, Tier};
+
+fn usage() -> ! {
+    eprintln!(
+        "usage: posim check <PROPERTY> [--tier quick|thorough] [--seed N] [--runs N] [--threads N] [--out DIR] [--tag checked|wrapping]\n       posim replay <file>\n       posim selftest refcodec|determinism [--seed N]"
+    );
+    std::process::exit(2);
+}
 
 fn main() {
-    let n = refcodec::selftest().expect("refcodec selftest");
-    println!("refcodec selftest ok: {n} vectors");
-    let mut w = World::new(Config::default());
-    let steps = vec![
-        Step::Start { connect: ConnectSpec { client_id: Some("c".into()), ..Default::default() }, auths: vec![] },
-        Step::Settle { seed: 1 },
-        Step::Broker { pkt: BrokerPkt::Connack { session_present: false, reason: 0, props: Default::default() }, chunks: Chunks::Whole, hold: false },
-        Step::Settle { seed: 2 },
-        Step::Op { handle: 0, spec: OpSpec::Publish(PublishSpec { qos: Some(1), topic: Some("t/0".into()), payload: Some(b"hi".to_vec()), ..Default::default() }) },
-        Step::Settle { seed: 3 },
-        Step::Broker { pkt: BrokerPkt::Ack { op: 0, kind: AckKind::Puback, reasons: vec![0], props: Default::default(), form: refcodec::Form::Full }, chunks: Chunks::Whole, hold: false },
-        Step::Settle { seed: 4 },
-    ];
-    for s in &steps {
-        w.exec(s);
+    let args: Vec<String> = std::env::args().skip(1).collect();
+    if args.is_empty() {
+        usage();
     }
-    w.finish();
-    for (i, e) in w.events().iter().enumerate() {
-        println!("{i:3} {:?}", e);
+    let flag = |name: &str| -> Option<String> { args.iter().position(|a| a == name).and_then(|i| args.get(i + 1).cloned()) };
+    let env_seed = std::env::var("VERIF_SEED").ok().and_then(|s| s.parse::<u64>().ok());
+    let seed = flag("--seed").and_then(|s| s.parse().ok()).or(env_seed).unwrap_or(1);
+    let threads = flag("--threads").and_then(|s| s.parse().ok()).unwrap_or_else(|| std::thread::available_parallelism().map(|n| n.get()).unwrap_or(4).min(16));
+    let out_dir = flag("--out").unwrap_or_else(|| "/verif".to_string());
+    let tag = flag("--tag").unwrap_or_else(|| if cfg!(debug_assertions) { "checked".into() } else { "wrapping".into() });
+    match args[0].as_str() {
+        "check" => {
+            let Some(prop) = args.get(1) else { usage() };
+            let tier = match flag("--tier").or_else(|| std::env::var("VERIF_TIER").ok()).as_deref() {
+                Some("thorough") => Tier::Thorough,
+                _ => Tier::Quick,
+            };
+            let opt = Options {
+                property: prop.clone(),
+                tier,
+                seed,
+                runs: flag("--runs").and_then(|s| s.parse().ok()),
+                threads,
+                out_dir,
+                profile_tag: tag,
+            };
+            println!("VERIF_SEED={seed}");
+            let code = check::run_check(&opt);
+            std::process::exit(code);
+        }
+        "replay" => {
+            let Some(path) = args.get(1) else { usage() };
+            std::process::exit(check::run_replay(path));
+        }
+        "selftest" => match args.get(1).map(|s| s.as_str()) {
+            Some("refcodec") => match refcodec::selftest() {
+                Ok(n) => println!("refcodec selftest ok: {n} vectors"),
+                Err(e) => {
+                    eprintln!("refcodec selftest FAILED: {e}");
+                    std::process::exit(2);
+                }
+            },
+            _ => usage(),
+        },
+        _ => usage(),
     }
-    for p in &w.wire {
-        println!("wire: {:?}", p);
-    }
-    println!("hash {:016x}", w.history_hash());
 }
